@@ -599,6 +599,62 @@ theorem destroyLoop_ups_nil (d : NodeId) (us : List NodeId) (S : State) (hus : (
     rw [disconnect_ok_ups G he, if_pos rfl, hus]
     simp
 
+/-! #### destroy(streams=selection) -/
+
+theorem destroyLoop_ups_erase (d : NodeId) (us : List NodeId) (S : State)
+    (hok : (destroyLoop G us d S).err = none) (x : NodeId) :
+    ((destroyLoop G us d S).st.loc x).ups = if x = d then us.foldl List.erase (S.loc d).ups else (S.loc x).ups := by
+  induction us generalizing S with
+  | nil =>
+    simp only [destroyLoop, List.foldl]
+    split
+    · next h => rw [h]
+    · rfl
+  | cons u us ih =>
+    obtain ⟨he, hok', hst⟩ := destroyLoop_cons_ok G hok
+    rw [hst, ih _ hok', disconnect_ok_ups G he, disconnect_ok_ups G he]
+    split <;> simp_all [List.foldl]
+
+theorem destroyLoop_downs_other (d : NodeId) (us : List NodeId) (S : State)
+    (hok : (destroyLoop G us d S).err = none) (x : NodeId) (hx : x ∉ us) :
+    (destroyLoop G us d S).st.downs x = S.downs x := by
+  induction us generalizing S with
+  | nil => simp [destroyLoop]
+  | cons u us ih =>
+    obtain ⟨he, hok', hst⟩ := destroyLoop_cons_ok G hok
+    have hxu : x ≠ u := fun h => hx (h ▸ List.mem_cons_self)
+    have hxs : x ∉ us := fun h => hx (List.mem_cons_of_mem _ h)
+    rw [hst, ih _ hok' hxs, disconnect_ok_downs G he, if_neg hxu]
+
+theorem destroyLoop_absent_kept (d : NodeId) (us : List NodeId) (S : State)
+    (hok : (destroyLoop G us d S).err = none) (x : NodeId) (hx : d ∉ S.downs x) :
+    d ∉ (destroyLoop G us d S).st.downs x := by
+  induction us generalizing S with
+  | nil => simpa [destroyLoop] using hx
+  | cons u us ih =>
+    obtain ⟨he, hok', hst⟩ := destroyLoop_cons_ok G hok
+    rw [hst]
+    refine ih _ hok' ?_
+    rw [disconnect_ok_downs G he]
+    split
+    · next h => subst h; exact fun hm => hx (List.mem_of_mem_erase hm)
+    · exact hx
+
+theorem Links.destroyLoop_removed {A : NodeId → Prop} (d : NodeId) (us : List NodeId) (S : State) (h : Links A S)
+    (hok : (destroyLoop G us d S).err = none) (x : NodeId) (hx : x ∈ us) :
+    d ∉ (destroyLoop G us d S).st.downs x := by
+  induction us generalizing S with
+  | nil => cases hx
+  | cons u us ih =>
+    obtain ⟨he, hok', hst⟩ := destroyLoop_cons_ok G hok
+    rw [hst]
+    by_cases hxu : x = u
+    · subst hxu
+      exact destroyLoop_absent_kept G d us _ hok' x (h.of_disconnect_removed G he).1
+    · cases hx with
+      | head => exact absurd rfl hxu
+      | tail _ hm => exact ih _ (h.of_disconnect G he) hok' hm
+
 /-- After a successful `d.destroy()` the node has no upstreams, and no node lists it as a child. -/
 theorem Links.of_destroy_isolated {A : NodeId → Prop} {S : State} (h : Links A S) {d : NodeId}
     (hok : (destroy G d S).err = none) :
